@@ -16,7 +16,7 @@ struct FrameModelListener : Listener {
     std::vector<SFrame> pre;         // stored frames before the op
     SFrame given;                    // caller's frame before the call (fsub)
     std::vector<SFrame> givenCol;    // caller's column vector before the call
-    size_t indexed = 0, columns = 0, resubmits = 0, mutationsObserved = 0, appends = 0, declWithData = 0, selfSubmits = 0;
+    size_t indexed = 0, columns = 0, resubmits = 0, mutationsObserved = 0, appends = 0, declWithData = 0, selfSubmits = 0, refills = 0, copies = 0;
     std::set<size_t> submittedSlots; bool slotDirty[4] = {false, false, false, false};
     bool requireAcceptance = false;  // C06: a frame that matches the declared state must be added (append / replace / extend), not refused
     std::set<std::string> reasons; bool eitherWay = false; size_t matchingRefused = 0;
@@ -104,12 +104,13 @@ struct FrameModelListener : Listener {
             // any other operation (parameters, locks, rates, print, save, caller-side mutations) must not touch stored frames
             std::string d = firstDiff(framesText(pre), framesText(post));
             if (!d.empty()) {
-                if (k == "fmut" || k == "colmut" || k == "fbuild")
+                if (k == "fmut" || k == "colmut" || k == "fbuild" || k == "refill" || k == "slotcopy" || k == "selfelem")
                     fail("stored frames changed when only the caller's own object was modified (" + o.note + "): " + d, i, op);
                 else fail("stored frames changed by an operation that does not touch data: " + d, i, op);
                 return;
             }
             if (k == "fmut") { size_t slot = static_cast<size_t>((op.arg(0) < 0 ? -op.arg(0) : op.arg(0)) % 4); if (submittedSlots.count(slot)) { ++mutationsObserved; } slotDirty[slot] = true; }
+            if (k == "refill" || k == "slotcopy") { size_t slot = static_cast<size_t>((op.arg(0) < 0 ? -op.arg(0) : op.arg(0)) % 4); if (submittedSlots.count(slot)) ++mutationsObserved; slotDirty[slot] = true; submittedSlots.erase(slot); if (k == "refill") ++refills; else ++copies; }
             if (k == "fbuild") { size_t slot = static_cast<size_t>((op.arg(0) < 0 ? -op.arg(0) : op.arg(0)) % 4); if (submittedSlots.count(slot)) ++mutationsObserved; slotDirty[slot] = true; submittedSlots.erase(slot); }
             if (k == "colmut" && !in.lastCol.empty() && !pre.empty()) ++mutationsObserved;
         }
